@@ -60,6 +60,11 @@ def snap_res(r):
 
 
 # ---- the enumerated accessor surface ---------------------------------------------------------------------------
+def _most_dominated(dm):
+    d = dm.dominance.dominance().sum(axis=0)
+    return d.idxmax()
+
+
 DM_ACC = [
     ("alternatives", lambda dm: dm.alternatives), ("criteria", lambda dm: dm.criteria),
     ("weights", lambda dm: dm.weights), ("objectives", lambda dm: dm.objectives),
@@ -76,7 +81,7 @@ DM_ACC = [
     ("dominance.eq", lambda dm: dm.dominance.eq()), ("dominance.dominance", lambda dm: dm.dominance.dominance()),
     ("dominance.compare", lambda dm: dm.dominance.compare(dm.alternatives[0], dm.alternatives[-1])),
     ("dominance.dominated", lambda dm: dm.dominance.dominated()),
-    ("dominance.dominators_of", lambda dm: dm.dominance.dominators_of(dm.alternatives[-1])),
+    ("dominance.dominators_of", lambda dm: dm.dominance.dominators_of(_most_dominated(dm))),
 ]
 RES_ACC = [
     ("result.values", lambda r: r.values), ("result.alternatives", lambda r: r.alternatives),
@@ -134,7 +139,10 @@ def poison(a):
     if a.dtype.kind == "b":
         return not bool(a.flat[0]) if a.size else True
     if a.dtype.kind == "O":
-        return a.flat[-1] if a.size else None
+        if a.size and isinstance(a.flat[0], str):
+            return "POISON"
+        other = [x for x in a.flat if x is not a.flat[0] and x != a.flat[0]] if a.size else []
+        return other[0] if other else (a.flat[-1] if a.size else None)
     return "ZZ"
 
 
@@ -231,6 +239,10 @@ def gen_dm(rng):
         for k in range(i):
             if c["matrix"][i] == c["matrix"][k]:
                 c["matrix"][i][0] += 0.25 * (i + 1)
+    # always a dominated alternative (so that dominators_of has something to hand out)
+    best = [max(r[j] for r in c["matrix"]) if o == 1 else min(r[j] for r in c["matrix"])
+            for j, o in enumerate(c["objectives"])]
+    c["matrix"][0] = [b + (1.0 if o == 1 else -0.0625) for b, o in zip(best, c["objectives"])]
     return c
 
 
